@@ -332,9 +332,20 @@ class Result:
         """key_fields: dict describing the failing case; a known finding matches when every key it
         lists under 'match' equals the case's value"""
         for k in self.known:
-            m = k.get("match", {})
-            if m and all(str(key_fields.get(f)) == str(v) for f, v in m.items()):
-                return k
+            ms = k.get("match", [])
+            if isinstance(ms, dict):
+                ms = [ms]
+            for m in ms:
+                ok = bool(m)
+                for f, v in m.items():
+                    if f == "key_regex":
+                        ok = ok and re.search(v, str(key_fields.get("key", ""))) is not None
+                    elif f == "tag":
+                        ok = ok and v in (key_fields.get("tags") or [])
+                    else:
+                        ok = ok and str(key_fields.get(f)) == str(v)
+                if ok:
+                    return k
         return None
 
     def violation(self, what, case, key_fields=None):
